@@ -5,6 +5,7 @@ package main
 import (
 	"fmt"
 	"go/ast"
+	"go/constant"
 	"go/token"
 	"go/types"
 	"os"
@@ -55,9 +56,36 @@ func init() {
 	allow14("batch.Authorize", "store:assign-elem[be.Variables]", "be.Variables = append(be.Variables, ...) collected from the map and sorted by slices.SortFunc immediately afterwards; ties (equal value-list lengths) only permute the enumeration order of the Cartesian product, which the property does not fix")
 	allow14("batch.Authorize$1", "store:assign-elem[]", "error for an unbound variable: API misuse, which variable is named is not an output of the property")
 	allow14("batch.cloneSub$1", "store:assign-elem[newMap]", "lazily allocated copy `newMap = t.Map()`: the same value whichever iteration allocates it")
-	// JSON decoding of a single-entry object
-	allow14("json.extensionJSON.ToNode", "carried:assign-elem[variable k]", "dominated by len(e) != 1 => error: the map has exactly one entry")
-	allow14("json.extensionJSON.ToNode", "carried:assign-elem[variable v]", "as above")
+}
+
+// singleEntryLoop: the loop ranges over a map that a dominating test showed to have exactly one entry (`if len(m) != 1 {
+// return … }`), so there is only one order. (This was a tabled reason until a seeded change weakened the test to
+// `len(m) == 0` and the table kept vouching for it.)
+func singleEntryLoop(l *ordLoop) bool {
+	if l.header == nil || l.srcVal == nil {
+		return false
+	}
+	for _, g := range guardsAt(l.header) {
+		fg := flattenGuard(g)
+		bo, ok := fg.Cond.(*ssa.BinOp)
+		if !ok {
+			continue
+		}
+		eq := bo.Op == token.EQL && fg.Pol || bo.Op == token.NEQ && !fg.Pol
+		if !eq {
+			continue
+		}
+		for _, xy := range [][2]ssa.Value{{bo.X, bo.Y}, {bo.Y, bo.X}} {
+			c, ok := xy[0].(*ssa.Call)
+			if !ok || !isBuiltin(&c.Call, "len") || c.Call.Args[0] != l.srcVal {
+				continue
+			}
+			if k, isK := constInt(xy[1]); isK && k == 1 {
+				return true
+			}
+		}
+	}
+	return false
 }
 
 type reachSets struct {
@@ -167,6 +195,10 @@ func runC14(p *Prog, r *Report) {
 			// error exits of encoders/decoders are not outputs
 			if sens == 2 && e.Kind == "exit:return-elem" && !inAuth && oa.isErrorExit(l, e) {
 				sens, why = 1, "error exit of an encoder/decoder (not an output of the property)"
+			}
+			if sens >= 2 && singleEntryLoop(l) {
+				r.OK("R14.1-order-free", construct, epos, "the map ranged over was tested to have exactly one entry: there is only one order")
+				continue
 			}
 			if sens >= 2 {
 				if reason, ok := c14Allow[q][effSig(e)]; ok {
@@ -574,7 +606,9 @@ func checkUnorderedArgs(p *Prog, r *Report, oa *orderAnalysis, rs *reachSets) {
 // compares concatenations of fields (Type+"::"+ID) is not injective — `Org::Unit::"x"` and `Org::"Unit::x"` tie — and tied
 // elements keep the order the map iteration gave them. Comparators must compare the key itself, an injective rendering
 // of it (String()/MarshalCedar()), or its fields one after the other.
-func checkTotalOrderComparators(p *Prog, r *Report) { checkTotalOrderComparatorsAs(p, r, "R14.4-total-order") }
+func checkTotalOrderComparators(p *Prog, r *Report) {
+	checkTotalOrderComparatorsAs(p, r, "R14.4-total-order")
+}
 
 func checkTotalOrderComparatorsAs(p *Prog, r *Report, rule string) {
 	n := 0
@@ -605,11 +639,22 @@ func checkTotalOrderComparatorsAs(p *Prog, r *Report, rule string) {
 			}
 			n++
 			concat := false
-			forEachInstr(cmp, func(in ssa.Instruction) {
-				if bo, ok := in.(*ssa.BinOp); ok && bo.Op == token.ADD && basicKind(bo.Type()) == types.String {
-					concat = true
+			// the comparator and the module's own helpers it calls (a key function kept in a local closure, say)
+			scan := []*ssa.Function{cmp}
+			if nd := p.CG().Nodes[cmp]; nd != nil {
+				for _, e := range nd.Out {
+					if g := e.Callee.Func; g != nil && g.Blocks != nil && strings.HasPrefix(fnPkgPath(g), modPath) && g != cmp {
+						scan = append(scan, g)
+					}
 				}
-			})
+			}
+			for _, g := range scan {
+				forEachInstr(g, func(in ssa.Instruction) {
+					if bo, ok := in.(*ssa.BinOp); ok && bo.Op == token.ADD && basicKind(bo.Type()) == types.String && !selfDelimitingConcat(bo) {
+						concat = true
+					}
+				})
+			}
 			// shape: a lexicographic chain of symmetric comparisons — every branch is on a comparison of the same projection
 			// of the two elements, or on the result of such a comparison against zero; anything else (switching between two
 			// orders depending on what the elements look like) need not be a total order
@@ -759,4 +804,67 @@ func comparatorShape(cmp *ssa.Function) string {
 		}
 	})
 	return why
+}
+
+// selfDelimitingConcat: a string concatenation whose variable parts after the first are all strconv.Quote results. A quoted
+// part cannot contain an unescaped quote, so the text splits back into its parts in exactly one way (read from the right);
+// free text joined by a separator that the parts themselves may contain does not.
+func selfDelimitingConcat(root *ssa.BinOp) bool {
+	if root.Referrers() != nil {
+		for _, u := range *root.Referrers() {
+			if bo, ok := u.(*ssa.BinOp); ok && bo.Op == token.ADD && basicKind(bo.Type()) == types.String {
+				return true // an inner link of a longer chain: judged at the chain's root
+			}
+		}
+	}
+	var parts []ssa.Value
+	var flat func(v ssa.Value)
+	flat = func(v ssa.Value) {
+		if bo, ok := v.(*ssa.BinOp); ok && bo.Op == token.ADD && basicKind(bo.Type()) == types.String {
+			flat(bo.X)
+			flat(bo.Y)
+			return
+		}
+		parts = append(parts, v)
+	}
+	flat(root)
+	constText := func(v ssa.Value) (string, bool) {
+		if c, ok := v.(*ssa.Const); ok && c.Value != nil && c.Value.Kind() == constant.String {
+			return constant.StringVal(c.Value), true
+		}
+		return "", false
+	}
+	seenVar := false
+	for i, pt := range parts {
+		if _, isK := pt.(*ssa.Const); isK {
+			continue
+		}
+		if !seenVar {
+			seenVar = true
+			continue
+		}
+		c, ok := stripConv(pt).(*ssa.Call)
+		if !ok || c.Call.StaticCallee() == nil {
+			return false
+		}
+		switch n := stdName(c.Call.StaticCallee()); {
+		case n == "strconv.Quote":
+		case fnPkgPath(c.Call.StaticCallee()) == pRust && strings.HasPrefix(c.Call.StaticCallee().Name(), "Escape"):
+			// the module's own escaper (its vocabulary, including the double quote, is C12's R12.1) between literal quotes
+			before, okB := "", false
+			if i > 0 {
+				before, okB = constText(parts[i-1])
+			}
+			after, okA := "", false
+			if i+1 < len(parts) {
+				after, okA = constText(parts[i+1])
+			}
+			if !okB || !okA || !strings.HasSuffix(before, "\"") || !strings.HasPrefix(after, "\"") {
+				return false
+			}
+		default:
+			return false
+		}
+	}
+	return true
 }
